@@ -455,7 +455,7 @@ _ADDENDA5 = {
     "C06": (" TestKillOutcomes: after a request with refused KILL calls the following clean-up of unowned tasks must send a KILL to every survivor. "
             "Creation failure stage deploy-noresources: two critical tasks that cannot both fit one machine (three deployment attempts, every launched task asked to terminate by the next clean-up at the latest)."),
     "C07": " A quarter of the callers go through an apricot server (remote.NewServer / remote.NewService in front of the Service), as a core in apricot:// mode does.",
-    "C09": " Hook task failure kind 'late' (reports its end 300 ms after its 400 ms timeout) and hook tasks that take 1.2 s within a 3 s timeout, so that a late report meets a core that is still collecting.",
+    "C09": " Hook task failure kind 'late' (reports its end 300 ms after its 400 ms timeout) and hook tasks that take 1.2 s within a 3 s timeout, so that a late report meets a core that is still collecting; 'trigger-error' (the trigger command is answered with an error; later hooks must still be collected).",
     "C10": (" A START vetoed in front of everything it does (critical call at before_START_ACTIVITY-3) is not a run: what the previous run left stays as it was; a run "
             "whose tasks fail to start is closed like any run ending in error (both end timestamps)."),
     "C11": (" Concurrent mode with yield patterns drawn by rapid (the environment-id callback in every update prologue yields or sleeps 20-80 us); "
